@@ -1000,6 +1000,26 @@ func init() {
 		return tuple{strBytes(string(data)), iface{}}
 	})
 
+	// ---- hash/fnv 64a: modelled as an injective stream identifier. The bytes
+	// written are kept; Sum64 of a fully concrete stream is the real FNV-1a
+	// value, a stream with symbolic bytes is compared (byte-wise, forking) with
+	// every stream hashed before on this path and gets that stream's value if
+	// equal, else a fresh value. Assumption: FNV-1a 64 has no collisions on
+	// the explored streams.
+	reg("(*hash/fnv.sum64a).Write", func(fr *frame, a []value) value {
+		st := fr.m.fnvStream(a[0].(*value))
+		*st = append(*st, a[1].([]value)...)
+		return tuple{len(a[1].([]value)), iface{}}
+	})
+	reg("(*hash/fnv.sum64a).Sum64", func(fr *frame, a []value) value {
+		return fr.m.fnvSum(*fr.m.fnvStream(a[0].(*value)))
+	})
+	reg("(*hash/fnv.sum64a).Reset", func(fr *frame, a []value) value {
+		st := fr.m.fnvStream(a[0].(*value))
+		*st = nil
+		return nil
+	})
+
 	// ---- misc
 	reg("runtime.Gosched", func(fr *frame, a []value) value {
 		fr.m.blockX(fr, "gosched", func() bool { return true }, true)
@@ -1300,4 +1320,53 @@ func toNative(v value) (interface{}, bool) {
 		return toNative(*x)
 	}
 	return nil, false
+}
+
+type fnvSeen struct {
+	stream []value
+	sum    uint64
+}
+
+func (m *Machine) fnvStream(cell *value) *[]value {
+	if m.objs == nil {
+		m.objs = map[string]value{}
+	}
+	k := fmt.Sprintf("fnv%p", cell)
+	if c, ok := m.objs[k]; ok {
+		return c.(*[]value)
+	}
+	c := new([]value)
+	m.objs[k] = c
+	return c
+}
+
+func (m *Machine) fnvSum(stream []value) value {
+	if m.objs == nil {
+		m.objs = map[string]value{}
+	}
+	var seen []fnvSeen
+	if c, ok := m.objs["fnvSeen"]; ok {
+		seen = c.([]fnvSeen)
+	}
+	cb, concrete := concreteBytes(stream)
+	if concrete {
+		h := uint64(14695981039346656037)
+		for _, b := range cb {
+			h ^= uint64(b)
+			h *= 1099511628211
+		}
+		seen = append(seen, fnvSeen{append([]value(nil), stream...), h})
+		m.objs["fnvSeen"] = seen
+		return h
+	}
+	m.path.Notes["fnv_symbolic_streams"]++
+	for _, s := range seen {
+		if len(s.stream) == len(stream) && m.truth(m.bytesEq(s.stream, stream)) {
+			return s.sum
+		}
+	}
+	id := uint64(0xF00D000000000000) + uint64(len(seen))
+	seen = append(seen, fnvSeen{append([]value(nil), stream...), id})
+	m.objs["fnvSeen"] = seen
+	return id
 }
